@@ -7,7 +7,9 @@ floor+2 for dn = 87, nn = 173 and a quotient too large by about B^86 one recursi
 Theorems (kernel-checked on the executable model): dcDivappr_floor2_small / dcDivappr_floor2 / dcDivappr_far_off (model of the pinned C,
 parameter rep = false) and dcDivappr_repaired_examples (model of the repaired C, rep = true; findings/dc_divappr_q_fix.diff).  The op
 carries `rep` (read from the source under test: `while` at :105 and the sign test in the rare case) so that the model mirrors whichever
-C is compiled.  NOT proved: the positive contract of the repaired C for all sizes (differential only: 0/+1 on every generated input).
+C is compiled.  PROVED for the repaired C (rep = 1, every size, every T >= 6, C >= 3): dc_divappr_q_contract (floor or floor+1, qh <= 1, every
+callee inside its domain, the `while` at :116 runs at most once per call), dc_divappr_q_remainder / sb_divappr_q_remainder (the three limbs a
+call leaves are its non-negative truncated remainder), dc_divappr_q_ok (limb vectors), dc_div_q_exact (mpn_dc_div_q without callee hypothesis).
 
 Branches of dc_divappr_q.c and how the generator reaches them (recipes from the proof: the routine subtracts d_i*q_j only for
 i + j >= n - 1, so divisors with all-ones low limbs make the neglected part largest):
@@ -27,14 +29,18 @@ from genlib import *
 LEAN_MODULES = ["MpirProofs.Props.C02_dcappr"]
 THEOREMS = ["Mpir.DcDivappr." + t for t in """
 dcDivappr_floor2_small dcDivappr_floor2 dcDivappr_far_off dcDivappr_repaired_examples
+dc_divappr_q_contract dc_divappr_q_remainder sb_divappr_q_remainder dc_divappr_q_ok dc_divappr_q_oracle dc_div_q_exact
 """.split()]
-PINS = [("mpn/generic/dc_divappr_q.c", None), ("mpn/generic/sb_divappr_q.c", "__divappr_helper")]
+PINS = [("mpn/generic/dc_divappr_q.c", None), ("mpn/generic/sb_divappr_q.c", "__divappr_helper"), ("mpn/generic/sb_divappr_q.c", None),
+        ("mpn/generic/dc_div_q.c", None)]
 TRUSTED = ["hand-written value-level model lean/Mpir/Model/DcDivappr.lean of mpn_dc_divappr_q (limb areas as naturals with explicit "
            "limb counts; the footprint 'a call writes only np[dn-2 ..] of its window and leaves the truncated remainder in np[dn-2 .. dn]' "
            "is part of the model; tied by correspondence on every run: quotient, those three limbs and qh compared verbatim)",
            "callee contracts inside that model: mpn_sb_div_qr = exact quotient/remainder (proved for its limb-level model, part c02_sb), "
            "mpn_dc_div_qr = the model of part c02_dc (proved exact), mpn_mulmid = the middle product of mulmid.c:32-38"]
-ASSUMPTIONS = ["DC_DIV_QR_THRESHOLD is the value in gmp-mparam.h of the tree under test (checked inside the C op); SB_DIVAPPR_Q_CUTOFF is read "
+ASSUMPTIONS = ["sizes are mp_size_t: 2*dn + 2 <= 2^64 (hypothesis `hsize` of dc_divappr_q_contract, the same as in sb_divappr_q_contract: the neglected "
+               "products of a call total less than n*B^n, which must stay below the divisor)",
+               "DC_DIV_QR_THRESHOLD is the value in gmp-mparam.h of the tree under test (checked inside the C op); SB_DIVAPPR_Q_CUTOFF is read "
                "from mpn/generic/dc_divappr_q.c of the tree under test (the theorems hold for every T >= 6, C >= 3)"]
 RULE = ("dc_divappr_q_model: dn in {6..9, 13, C-1..C+2, T+1, T+2, 2C-1..2C+2, 4C+1}, qn from 3 to 3*dn+1 on both sides of qn + 1 = dn; "
         "divisors B^n/2, B^n-1, B^n/2 + all-ones tail, 0x80..0 then ones, random; quotients with all-ones / zero halves and trailing "
